@@ -297,6 +297,13 @@ EasyC(tv) == LET W == {v \in Vis : Compat(v, tv)} IN
   IF D(tv) = "bool" THEN {C(o, <<AV(a)>>, NoAt, 0) : o \in Ops \cap {"Not", "Identity"}, a \in Pick(W)}
   ELSE {C(o, <<AV(a)>>, NoAt, 0) : o \in Pick(Ops \cap ({"Neg", "Abs", "Sign", "Identity"} \cup IF D(tv) = "f32" THEN {"Relu"} ELSE {})), a \in Pick(W)}
        \cup {C(q[1], <<AV(q[2]), AL(q[3])>>, NoAt, 0) : q \in Pick({q \in (Ops \cap {"Add", "Sub", "Mul", "Max", "Min"}) \X W \X DOMAIN L : q[3] \in SLits(D(q[2]))})}
+\* ONNX shape inference of an If / Loop / Scan node runs over its body: it gives up (no types on the node's outputs) when the
+\* body - at any depth - holds a function-call node (no schema) or a Constant whose reference attribute was dropped
+RECURSIVE Opaque(_)
+Opaque(ss) == \E i \in 1..Len(ss) :
+                 \/ ss[i].kind = "call"
+                 \/ (ss[i].kind = "inline" /\ ss[i].amode = "omit" /\ Funcs[ss[i].fn].hasattr /\ Dev("inline_default_attr_dropped"))
+                 \/ \E j \in 1..Len(ss[i].subs) : Opaque(ss[i].subs[j].body)
 \* NOTE (TLC): a LET directly inside an action formula is re-evaluated at every use; the new state is therefore computed
 \* by state-level operators (XxxNew, LETs cached) and bound once with  \E n \in {XxxNew(..)}.
 CallOpNew(c, os) ==
@@ -356,7 +363,7 @@ CloseElseNew(r) ==
       args == <<AV(c)>>
       st == AdaptArgs(Sigs["If"], args, 1, St0(Parent, vals2, cache, gn))
       ot == <<[k \in 1..K |-> IF vals[c].ev[k].data[1] # 0 THEN vals[tr].ev[k] ELSE vals[r].ev[k]]>>
-      e == EmitNode("If", "If", "", st, 1, DefSpec, Tk(args), ot, <<tb.g, eb.g>>)     \* branch outputs carry declared types
+      e == EmitNode("If", "If", "", st, 1, DefSpec, Tk(args) /\ ~Opaque(tb.body) /\ ~Opaque(eb.body), ot, <<tb.g, eb.g>>)
       stmt == Stmt(Cur.pend.k, "if", "If", args, <<"">>, NoAt, e.ov, DefSpec, 0, <<StmtBlk(tb), StmtBlk(eb)>>, 0, "", "")
   IN [ok |-> \A k \in 1..K : SameTS(vals[tr].ev[k], vals[r].ev[k]),
       vals |-> e.vals, cache |-> e.cache, gn |-> e.gn,
@@ -399,7 +406,7 @@ CloseLoopNew(r, sc) ==
       ok == /\ \A k \in 1..K : SameTS(vals[r].ev[k], vals[p.a].ev[k])
             /\ \A i \in 1..Len(ot) : \A k \in 1..K : OkT(ot[i][k])
       st == AdaptArgs(Sigs["Loop"], args, 1, St0(Parent, v2, e1.cache, e1.gn))
-      e == EmitNode("Loop", "Loop", "", st, Len(ot), os, Tk(args), ot, <<blk.g>>)
+      e == EmitNode("Loop", "Loop", "", st, Len(ot), os, Tk(args) /\ ~Opaque(blk.body), ot, <<blk.g>>)
       stmt == Stmt(p.k, "loop", "Loop", args, Pdt(Sigs["Loop"], args), NoAt, e.ov, os, 0, <<StmtBlk(blk)>>, 0, "", "")
   IN IF ~ok THEN [ok |-> FALSE]
      ELSE [ok |-> TRUE, vals |-> e.vals, cache |-> e.cache, gn |-> e.gn,
@@ -434,7 +441,7 @@ CloseScanNew(r, sc) ==
       ok == /\ \A k \in 1..K : SameTS(vals[r].ev[k], vals[p.a].ev[k])
             /\ \A i \in 1..2 : \A k \in 1..K : OkT(ot[i][k])
       st == AdaptArgs(Sigs["Scan"], args, 1, St0(Parent, v2, cache, gn))
-      e == EmitNode("Scan", "Scan", "", st, 2, os, Tk(args), ot, <<blk.g>>)
+      e == EmitNode("Scan", "Scan", "", st, 2, os, Tk(args) /\ ~Opaque(blk.body), ot, <<blk.g>>)
       stmt == Stmt(p.k, "scan", "Scan", args, <<"", "">>, at, e.ov, os, 0, <<StmtBlk(blk)>>, 0, "", "")
   IN IF ~ok THEN [ok |-> FALSE]
      ELSE [ok |-> TRUE, vals |-> e.vals, cache |-> e.cache, gn |-> e.gn,
@@ -574,14 +581,26 @@ NoShadowFrom(nodes, j, seen, allouts, design) ==
                                             around == seen \cup others
                                         IN ins \cap around = {} /\ NoShadow(Head(ss).nodes, around \cup ins, design)) /\ ShSubs(Tail(ss)))
        IN outs \cap seen = {} /\ Cardinality(outs) = Len(h.ov) /\ ShSubs(h.subs) /\ NoShadowFrom(nodes, j + 1, seen \cup outs, allouts, design)
+\* the weaker reading: only names defined BEFORE the subgraph's node count as visible
+RECURSIVE NoShadowBefore(_, _, _)
+NoShadowBefore(nodes, seen, design) ==
+  IF nodes = <<>> THEN TRUE
+  ELSE LET h == Head(nodes)
+           outs == OutsOf(h, design)
+           RECURSIVE ShSubs(_)
+           ShSubs(ss) == ss = <<>> \/ ((LET ins == {NameOf(Head(ss).iv[i], design) : i \in 1..Len(Head(ss).iv)} IN
+                                           ins \cap seen = {} /\ NoShadowBefore(Head(ss).nodes, seen \cup ins, design)) /\ ShSubs(Tail(ss)))
+       IN outs \cap seen = {} /\ Cardinality(outs) = Len(h.ov) /\ ShSubs(h.subs) /\ NoShadowBefore(Tail(nodes), seen \cup outs, design)
 Imports == <<<<"", 21>>>> \o [i \in 1..Len(Funcs) |-> <<Funcs[i].domain, 1>>]
 GraphOK(nodes, outs, design) ==
   [wf |-> WFWhy(ProjMain(nodes, outs, design), Imports),
    res |-> ResNodes(nodes, [i \in 1..NInputs |-> <<vals[i].nm, i>>], design),
    nn |-> NoDup(NodeNames(nodes, design)),
-   nosh |-> NoShadow(nodes, {vals[i].nm : i \in 1..NInputs} \cup {cache[i].nm : i \in 1..Len(cache)}, design)]
+   nosh |-> NoShadow(nodes, {vals[i].nm : i \in 1..NInputs} \cup {cache[i].nm : i \in 1..Len(cache)}, design),
+   noshb |-> NoShadowBefore(nodes, {vals[i].nm : i \in 1..NInputs} \cup {cache[i].nm : i \in 1..Len(cache)}, design)]
 AllOK(g) == g.wf[1] /\ g.wf[2] /\ g.wf[3] /\ g.wf[4] /\ g.res /\ g.nn /\ g.nosh
 Loadable(g) == g.wf[2] /\ g.wf[3] /\ g.wf[4] /\ g.res /\ g.nosh       \* what a runtime needs; names may still repeat between sibling subgraphs
+Rejected(g) == ~(g.wf[2] /\ g.wf[3] /\ g.wf[4] /\ g.res /\ g.noshb)        \* a subgraph redefines a name already defined around it
 
 -----------------------------------------------------------------------------
 (* Finish: the unused top-level values become the graph outputs *)
@@ -610,7 +629,8 @@ FinishOut ==
                                                    shape |-> vals[v].ev[1].shape]],
              nodes |-> main.nodes, inits |-> cache,
              impl |-> gimpl, design |-> gd,
-             outcome |-> IF raised THEN "raise" ELSE IF dropped \/ ~Loadable(gimpl) THEN "invalid" ELSE "ok",
+             \* "either": a subgraph repeats a name that its enclosing graph defines only LATER - runtimes differ on that
+             outcome |-> IF raised THEN "raise" ELSE IF dropped \/ Rejected(gimpl) THEN "invalid" ELSE IF Loadable(gimpl) THEN "ok" ELSE "either",
              uniq |-> AllOK(gimpl),
              why |-> (flags \cap Deviations) \cup (IF Dev("subgraph_name_reuse") /\ ~AllOK(gi) /\ AllOK(gd) THEN {"subgraph_name_reuse"} ELSE {})]]
 Finish ==
